@@ -4,7 +4,7 @@ import random
 
 KEYS = ["a", "b", "c", "d", "id", "name", "value", "items", "x", "y"]
 PLAIN = ["x", "foo", "bar", "s" * 19, "t" * 20, "u" * 21, "hello world", "a,b", 'q"uote', "back\\slash", "new\nline",
-         "été", "中", ""]
+         "été", "中", "", "Foo", "FOO", " true", "False ", "a", "b", "...", "1 ", "nan ", "\u2028x"]
 INTS = ["1", "42", "-7", "+3", " 5 ", "1_000", "0", "١٢"]
 FLOATS = ["1.5", "-0.25", "1e3", "inf", "nan", ".5", "2.", "1_0.5", "-Infinity"]
 BOOLS = ["true", "false", "True", "FALSE"]
@@ -70,6 +70,60 @@ class Gen:
     def samples(self, depth=3, nmax=3):
         r = self.r
         return [self.obj(depth) for _ in range(r.randint(1, nmax))]
+
+    def family(self):
+        """the usual shape of real data: sibling objects of ONE shape under a root, each holding a list of child objects
+        whose keys are subsets of one pool (so parents merge, children merge, and a merged child can equal one of its
+        members), plus look-alike leaf siblings"""
+        r = self.r
+        pool = r.sample(self.keys, min(len(self.keys), r.randint(4, 7)))
+        pk = [f"k{i}" for i in range(r.randint(2, 4))]
+        child_key = r.choice(["x", "items", "children"])
+
+        def child(full):
+            ks = pool if full else [k for k in pool if r.random() < 0.8] or pool[:1]
+            return {k: (i if r.random() < 0.8 else r.choice([None, str(i), 1.5])) for i, k in enumerate(ks)}
+
+        def parent():
+            o = {k: i for i, k in enumerate(pk)}
+            n = r.randint(1, 3)
+            o[child_key] = [child(j == 0 and r.random() < 0.7) for j in range(n)]
+            return o
+        root = {f"p{i}": parent() for i in range(r.randint(2, 3))}
+        if r.random() < 0.5:       # look-alike leaf siblings
+            leaf = {k: 1.5 for k in r.sample(pool, min(3, len(pool)))}
+            root["home"], root["work"] = dict(leaf), dict(leaf)
+        out = [root]
+        if r.random() < 0.4:
+            out.append({f"p{i}": parent() for i in range(r.randint(1, 3))})
+        return out
+
+    def variants(self):
+        """3-4 samples, each holding ONE nested object under a different key; the objects share their field names and differ
+        in what a field holds (int / float / missing / null / numeric string): the models get merged, and what the merged
+        field looks like before simplification depends on the order in which the members arrive"""
+        r = self.r
+        fields = r.sample(["f", "g", "h", "i", "j"], r.randint(3, 4))
+        tops = r.sample(["x", "y", "z", "w"], r.randint(2, 4))
+        out = []
+        for _ in range(r.randint(3, 4)):
+            o = {}
+            for k in fields:
+                c = r.random()
+                if c < 0.45:
+                    o[k] = 1
+                elif c < 0.6:
+                    o[k] = 1.5
+                elif c < 0.75:
+                    continue
+                elif c < 0.82:
+                    o[k] = None
+                elif c < 0.9:
+                    o[k] = r.choice(["1", "2.5", "true"])
+                else:
+                    o[k] = r.choice([[], [1], {}])
+            out.append({r.choice(tops): o})
+        return out
 
     def literal_heavy(self):
         """samples whose literal sets come close to the limits and OVERLAP: a key holding p distinct short strings
